@@ -100,7 +100,7 @@ def run(ctx):
         'exact names are demanded only for reports in the genuine format (sentinel first and once, complete SYMBOL/LOCATION entries, clean '
         'pc=0x.. fields that resolve in this executable); for anything else (missing/zero/repeated sentinels, odd line pairing, unparsable or '
         'unresolvable PCs, lines the classifier cannot tell) the outcome may be an error, the fixed name, or at most 16 frames each taken from '
-        'a PC line below a running/ambiguous header',
+        'a PC line of the first running goroutine (between its header, or an ambiguous header line before it, and the first blank / "created by" line after that header, whatever the line pairing)',
         'a crashing goroutine that is locked to its thread ("[running, locked to thread]:") is reported as crash/no-running-goroutine; the '
         'property does not list it, it is recorded as an observation only',
         'the name-length bound is observed on every result; 32 reports of 17 frames with 200..600-byte identifiers (first identifier growing in 10-byte steps) and one real crash through such functions exercise the cut; a cut name (truncation marker) must carry a proper prefix of the expected frames',
@@ -111,9 +111,9 @@ def run(ctx):
     view = 'ViewFull' if ctx.thorough() else 'View'
     runs = [('cover', 'PrefixEmpty', 40, view)]
     if ctx.thorough():
-        runs += [('seq-hdr', 'PrefixHdr', 6, None), ('seq-trap', 'PrefixTrap', 8, None), ('seq-empty', 'PrefixEmpty', 4, None)]
+        runs += [('seq-hdr', 'PrefixHdr', 6, None), ('seq-trap', 'PrefixTrap', 8, None), ('seq-empty', 'PrefixEmpty', 4, None), ('seq-odd', 'PrefixOdd', 9, None)]
     else:
-        runs += [('seq-hdr', 'PrefixHdr', 5, None), ('seq-empty', 'PrefixEmpty', 2, None)]
+        runs += [('seq-hdr', 'PrefixHdr', 5, None), ('seq-empty', 'PrefixEmpty', 2, None), ('seq-odd', 'PrefixOdd', 8, None)]
     vectors = []
     seen = set()
     for (label, prefixes, maxlen, vw) in runs:
